@@ -172,6 +172,56 @@ pub fn judge_recv(case: &RecvCase, o: &RecvOutcome) -> Vec<(String, String)> {
     let delivered = result == "ok" || result.starts_with("some:");
     let msg_err = format!("Stream({:#x})", refimpl::h3auto::H3_MESSAGE_ERROR);
     if delivered {
+        // what was handed over is what was sent
+        let sent = |n: &[u8]| -> Option<&Vec<u8>> {
+            let mut it = case.fields.iter().filter(|(k, _)| k == n);
+            let first = it.next();
+            if it.next().is_some() {
+                return None;
+            }
+            first.map(|(_, v)| v)
+        };
+        if let (Slot::Request, Some((method, scheme, authority, pq))) = (case.slot, &m.req_target) {
+            let mut diffs: Vec<(&str, Vec<u8>, Vec<u8>)> = Vec::new();
+            if let Some(want) = sent(b":method") {
+                if method.as_bytes() != &want[..] {
+                    diffs.push(("method", want.clone(), method.as_bytes().to_vec()));
+                }
+            }
+            if let (Some(want), Some(got)) = (sent(b":scheme"), scheme) {
+                if got.as_bytes() != &want[..] {
+                    diffs.push(("scheme", want.clone(), got.as_bytes().to_vec()));
+                }
+            }
+            if let Some(want) = sent(b":authority").or(sent(b"host")) {
+                let got = authority.clone().unwrap_or_default();
+                if got.as_bytes() != &want[..] && !want.is_empty() {
+                    diffs.push(("authority", want.clone(), got.into_bytes()));
+                }
+            }
+            if let Some(want) = sent(b":path") {
+                let got = pq.clone().unwrap_or_default();
+                if got != *want && !want.is_empty() {
+                    diffs.push(("path", want.clone(), got));
+                }
+            }
+            for (what, want, got) in diffs {
+                out.push((
+                    format!("C12:recv:{slot}:delivered-{what}-differs-from-sent"),
+                    format!("{ctx}: {what} sent as {} but handed over as {}", explore::hex(&want), explore::hex(&got)),
+                ));
+            }
+        }
+        if matches!(case.slot, Slot::Request | Slot::Response) {
+            let mut want: Vec<(Vec<u8>, Vec<u8>)> = case.fields.iter().filter(|(n, _)| !n.starts_with(b":")).cloned().collect();
+            want.sort();
+            if want != m.head_fields {
+                out.push((
+                    format!("C12:recv:{slot}:delivered-fields-differ-from-sent"),
+                    format!("{ctx}: regular fields handed over: [{}]", fields_str(&m.head_fields)),
+                ));
+            }
+        }
         if v.class == Class::Malformed {
             out.push((
                 format!("C12:recv:{slot}:malformed-delivered:{}", v.why),
@@ -199,7 +249,7 @@ fn recv_cases(thorough: bool) -> Vec<RecvCase> {
     let methods: Vec<Vec<Field>> = vec![vec![], vec![f(b":method", b"GET")], vec![f(b":method", b"G T")], vec![f(b":method", b"GET"), f(b":method", b"POST")]];
     let schemes: Vec<Vec<Field>> = vec![vec![], vec![f(b":scheme", b"https")], vec![f(b":scheme", b"1://")]];
     let auths: Vec<Vec<Field>> = vec![vec![], vec![f(b":authority", b"a.example")], vec![f(b":authority", b"")], vec![f(b":authority", b"a b")], vec![f(b":authority", b"A.example")]];
-    let paths: Vec<Vec<Field>> = vec![vec![], vec![f(b":path", b"/")], vec![f(b":path", b"/ x")]];
+    let paths: Vec<Vec<Field>> = vec![vec![], vec![f(b":path", b"/")], vec![f(b":path", b"/ x")], vec![f(b":path", b"/caf\xe9")], vec![f(b":path", b"/caf\xc3\xa9?q=\xe2\x82\xac")], vec![f(b":path", b"/p?q=\xff")]];
     let statuses: Vec<Vec<Field>> = vec![vec![], vec![f(b":status", b"200")], vec![f(b":status", b"20")], vec![f(b":status", b"abc")]];
     let protos: Vec<Vec<Field>> = vec![vec![], vec![f(b":protocol", b"webtransport")], vec![f(b":protocol", b"nope")]];
     let hosts: Vec<Vec<Field>> = vec![vec![], vec![f(b"host", b"a.example")], vec![f(b"host", b"b.example")], vec![f(b"host", b"")], vec![f(b"host", b"A.EXAMPLE")]];
@@ -562,7 +612,7 @@ pub fn run(args: &Args) -> i32 {
     let _ = Tier::Thorough;
     let mut rep = Report::new("C12", args.tier, args.seed, "exploration");
     rep.exhaustive = true;
-    rep.rule = "receive: product of per-slot alternatives - :method {absent, GET, 'G T', twice} x :scheme {absent, https, '1://'} x :authority {absent, a.example, '', 'a b', A.example} x :path {absent, '/', '/ x'} x :status {absent, 200, '20', 'abc'} x :protocol {absent, webtransport, nope} x Host {absent, same, different, '', differing from :authority only in letter case} x undefined ':x' {absent, present} x one regular field over names {ok, Upper, '', 'sp ace', 'ctl\\x01', 'a:b'} x values {v, '', a\\rb, a\\nb, a\\0b, \\x80} (full cross with the reduced pseudo grid, 4 representative regular fields with the full one), as request; responses over :status x leaked request pseudo fields x ':x' x regular; request and response trailers over pairs of regular fields x pseudo leakage. Sections are reference-encoded with literal representations and injected by a scripted peer into a real server / client over simnet. send: 5 method kinds x 6 targets x 7 header sets x trailers, 5 statuses x 7 header sets x trailers through the API, HEADERS frames decoded by refimpl. Oracle refimpl::fields. Non-trivial = sections with at least 2 fields.".into();
+    rep.rule = "receive: product of per-slot alternatives - :method {absent, GET, 'G T', twice} x :scheme {absent, https, '1://'} x :authority {absent, a.example, '', 'a b', A.example} x :path {absent, '/', '/ x', '/caf\\xe9' (not UTF-8), a path and query with well-formed non-ASCII UTF-8, '/p?q=\\xff'} x :status {absent, 200, '20', 'abc'} x :protocol {absent, webtransport, nope} x Host {absent, same, different, '', differing from :authority only in letter case} x undefined ':x' {absent, present} x one regular field over names {ok, Upper, '', 'sp ace', 'ctl\\x01', 'a:b'} x values {v, '', a\\rb, a\\nb, a\\0b, \\x80} (full cross with the reduced pseudo grid, 4 representative regular fields with the full one), as request; responses over :status x leaked request pseudo fields x ':x' x regular; request and response trailers over pairs of regular fields x pseudo leakage. Sections are reference-encoded with literal representations and injected by a scripted peer into a real server / client over simnet. send: 5 method kinds x 6 targets x 7 header sets x trailers, 5 statuses x 7 header sets x trailers through the API, HEADERS frames decoded by refimpl. Oracle refimpl::fields. Non-trivial = sections with at least 2 fields.".into();
     rep.assumptions = vec![
         "the predicate is exactly the property's list (three-valued); not demanded: rejecting pseudo-after-regular, repeated pseudo fields, :status in a request, pseudo fields in trailers, unknown :protocol tokens; nor that every well-formed section is accepted (DESIGN.md 7)".into(),
         "refimpl::qpack literal encoder carries arbitrary bytes; refimpl::fields is unit-tested".into(),
